@@ -571,14 +571,37 @@ def _bag(ctx, prog):
             if e.data.get("name") == "builtins.int"]
     stamp = None
     for e in r.of_kind("loop"):
-        if is_call_to(e.data["iter"], "builtins.zip"):
-            stamp = T("elem", e.data["iter"].args[1][0], e.data["lid"])
-    times = [e for e in r.of_kind("call") if len(e.data["args"]) == 2 and
-             any(x.op == "const" and x.args[1] ==
-                 "builtin_interfaces/msg/Time" for x in e.data["fn"].walk())]
+        it_ = e.data["iter"]
+        if is_call_to(it_, "builtins.enumerate") and it_.args[1]:
+            it_ = it_.args[1][0]            # for k, (t, p, q) in enumerate(..)
+        if is_call_to(it_, "builtins.zip"):
+            stamp = T("elem", it_.args[1][0], e.data["lid"])
+    times = [e for e in r.of_kind("call") if len(e.data["args"]) in (1, 2)
+             and any(x.op == "const" and x.args[1] ==
+                     "builtin_interfaces/msg/Time"
+                     for x in e.data["fn"].walk())]
     ctx.require(stamp is not None and bool(times),
                 "bag writer: Time(sec, nanosec) construction not found")
-    sec, nsec = times[0].data["args"]
+    targs = list(times[0].data["args"])
+    if len(targs) == 1 and targs[0].op == "star" and is_call_to(
+            targs[0].args[0], "builtins.divmod") and \
+            len(targs[0].args[0].args[1]) == 2:
+        # Time(*divmod(sec * N + ns, N)) is Time(sec, ns) for 0 <= ns < N
+        total, n_ = targs[0].args[0].args[1]
+        if total.op == "binop" and total.args[0] == "Add":
+            for a_, b_ in ((total.args[1], total.args[2]),
+                           (total.args[2], total.args[1])):
+                if a_.op == "binop" and a_.args[0] == "Mult" and \
+                        n_ in (a_.args[1], a_.args[2]):
+                    targs = [a_.args[2] if a_.args[1] is n_ else a_.args[1],
+                             b_]
+        if len(targs) == 1:
+            # both fields are derived from one total (e.g. int(stamp * 1e9)):
+            # judged below as "scaled as a whole"
+            targs = [total, total]
+    ctx.require(len(targs) == 2, "bag writer: Time(sec, nanosec) "
+                "construction not recognised")
+    sec, nsec = targs
     floor_ok = is_call_to(sec, "builtins.int", "math.floor") and \
         sec.args[1] and ((sec.args[1][0].op == "binop" and
                           sec.args[1][0].args[0] == "FloorDiv" and
